@@ -73,17 +73,28 @@ theorem shape_tie :
 set flag. -/
 theorem decref_tie : Generated.C14.fn_DecRef = shape [.drLoad true, .drCas 0 true, .drMbd] := by decide
 
-/-- the callers are the repaired ones the model describes: the conditional pin is `pinIfActive`
-(= the model's `peek`), an unpinned segment is handed out behind a no-op DecRef, `segments(true)`
-unwinds on failure (a `DecRef` follows its `incRef`), and retention / expiry scans take no pin and
-issue no DecRef. -/
+/-- The callers AS WRITTEN (HEAD of /repo, known finding F14a, fix F14b applied): the conditional
+pin is the inlined CAS loop (= the model's `peek`: load, `<= 0` exit, CAS to current+1) and every
+returned segment is DecRef'ed unconditionally – `selectSegments(false)` callers, `remove`,
+`getExpiredSegmentsTimeRange`, `deleteExpiredSegments` go through `segments(ctx,false)` and end with
+`DecRef` (the default driver models this with `Proc.decRefStray`); `segments(ctx,true)` unwinds on
+failure (a `DecRef` follows its `incRef`); `removeOldest` takes no pin. -/
 theorem callers_tie :
+    Generated.C14.ctl_selectSegments = ["incRef", "DecRef", "la:=now"] ++ shape [.pkLoad, .pkCas 0] ∧
+    Generated.C14.ctl_segments = ["incRef", "DecRef"] ++ shape [.pkLoad, .pkCas 0] ∧
+    Generated.C14.ctl_remove = ["segments(false)", "delete", "removeSeg", "DecRef"] ∧
+    Generated.C14.ctl_getExpiredSegmentsTimeRange = ["segments(false)", "DecRef"] ∧
+    Generated.C14.ctl_deleteExpiredSegments = ["segments(false)", "delete", "removeSeg", "DecRef"] ∧
+    Generated.C14.ctl_removeOldest = ["delete", "removeSeg"] := by decide
+
+/-- Shape of the callers after the PROPOSED repair of F14a (fixes/C14_F14a_unpinned_decref.diff) –
+what `drv_c14 --repaired` and the `Reachable` theorems describe.  Not a theorem on the current
+tree (it holds on a tree with the patch applied; checked there during development). -/
+def callersRepairedShape : Prop :=
     Generated.C14.fn_pinIfActive = shape [.pkLoad, .pkCas 0] ∧
     Generated.C14.ctl_selectSegments = ["incRef", "DecRef", "la:=now", "pinIfActive", "unpinned"] ∧
-    Generated.C14.ctl_segments = ["incRef", "DecRef", "cur:=rc", "cur<=0", "cas+1"] ∧
     Generated.C14.ctl_remove = ["copySegments", "delete", "removeSeg"] ∧
     Generated.C14.ctl_getExpiredSegmentsTimeRange = ["copySegments"] ∧
-    Generated.C14.ctl_deleteExpiredSegments = ["copySegments", "delete", "removeSeg"] ∧
-    Generated.C14.ctl_removeOldest = ["delete", "removeSeg"] := by decide
+    Generated.C14.ctl_deleteExpiredSegments = ["copySegments", "delete", "removeSeg"]
 
 end Banyan.Tie.C14
